@@ -224,6 +224,48 @@ def check_files(case, ctx):
                     ok = False
     if not ok:
         ctx.fail("C02/permute-inputs", sub, "permuting the input files did not simply permute the csv columns:\n%s\n---\n%s" % ("\n".join(r0.lines()[:6]), "\n".join(r2.lines()[:6])))
+    # permute-inputs on a table with several columns per file (-m obsfcst -q): a column is identified by its label
+    # ("<file> <level>%"), and holds the same numbers wherever the file stands on the command line
+    qs = None
+    for d in spec["inputs"]:
+        qq = set(d.get("quantiles") or [])
+        qs = qq if qs is None else qs & qq
+    qs = sorted(qs or [])
+    if n_in >= 2 and qs and case["axis"] not in ("obs", "fcst", "threshold"):
+        qtail = ["-m", "obsfcst", "-q", ",".join(repr(float(q)) for q in qs[:2]), "-x", case["axis"], "-type", "csv"]
+        q0 = drive.run(variants["orig"] + qtail)
+        q2 = drive.run([variants["orig"][i] for i in case["order"]] + qtail)
+        ctx.evals += 2
+        if all(r.exc is None and r.exit in (None, 0) for r in (q0, q2)):
+            ctx.label("files/obsfcst-q/%d-levels" % len(qs[:2]))
+            ha, ra = drive.parse_csv(q0.lines())
+            hb, rb = drive.parse_csv(q2.lines())
+            cols_a = dict((h, [row[j] for row in ra]) for j, h in enumerate(ha))
+            cols_b = dict((h, [row[j] for row in rb]) for j, h in enumerate(hb))
+            if len(cols_a) == len(ha) and len(cols_b) == len(hb):      # labels are unique (file names differ)
+                if sorted(cols_a) != sorted(cols_b):
+                    ctx.fail("C02/permute-inputs/obsfcst", sub, "column labels changed with the order of the files: %r vs %r" % (ha, hb))
+                else:
+                    for h in ha:
+                        if cols_a[h] != cols_b[h]:
+                            ctx.fail("C02/permute-inputs/obsfcst", sub, "column %r holds other numbers when the files are given in another order:\n%s\n---\n%s"
+                                     % (h, "\n".join(q0.lines()[:5]), "\n".join(q2.lines()[:5])))
+                            break
+            # ... and each file's column holds that file's own stored quantile (mean over the slice's valid cases)
+            nd2 = len(ha) - 1 - n_in - n_in * len(qs[:2])
+            for i, pth in enumerate(variants["orig"]):
+                for q in qs[:2]:
+                    lab = "%s %g%%" % (os.path.basename(pth), q * 100)
+                    if lab not in cols_a:
+                        ctx.fail("C02/obsfcst/label", sub, "no column labelled %r in %r" % (lab, ha))
+                        continue
+                    for k in range(min(len(ra), ds.n_slices(case["axis"]))):
+                        cs = ds.cases([("q", q), ("obs",)], i, case["axis"], k)    # the diagram pairs every line with the observations
+                        ref = _mean([c[0] for c in cs])
+                        if not cmpx.printed_ok(float(cols_a[lab][k]), ref, 6):
+                            ctx.fail("C02/obsfcst/own-values", sub, "column %r row %d: %r, the file's own %g-quantile averaged over the slice's valid (quantile, observation) cases is %r"
+                                     % (lab, k, cols_a[lab][k], q, ref))
+                            break
     # cell-csv: values against the model
     axis = case["axis"]
     if len(rows0) != ds.n_slices(axis):
